@@ -21,7 +21,7 @@ SR_TECH = "symbolic execution of the real code on z3 real terms inside numpy obj
 CHECKS.update({
     "C02": ("SR", SR_TECH,
             "Bounded solver-checked: for every real value of every numeric cell, each column of model_matrix(...) equals literal scale x product of the pieces its label names (independent label parser), and with ensure_full_rank=False the label list is the complete Kronecker product in term order; configurations (term families <=3 terms x <=3 factors, intercept, rank mode, pandas/numpy output) enumerated.",
-            "Reals not floats; numeric columns enter through `context` as object arrays (ndarray branch of the encoders); sparse output, the Series branch and the narwhals materializer are visited natively at one generic point per configuration (ground companions, not solver-decided); treatment coding only; 7-row crossed layout with A:3 and B:2 levels.",
+            "Reals not floats; numeric columns enter through `context` as object arrays (ndarray branch of the encoders); sparse output, the Series branch and the narwhals materializer are visited natively at one generic point per configuration (ground companions, not solver-decided); treatment, sum and helmert codings only (others: C11); 7-row crossed layout (+ a one-row and a one-level layout) with A:3 and B:2 levels.",
             "DESIGN.md §3 C02"),
     "C12": ("SR", SR_TECH + "; independent references: Cox-de Boor over z3 terms, cardinal interpolating splines solved in exact rationals",
             "Bounded solver-checked: for every real x (one row), on every path through the real basis_spline / cubic_spline, each column equals the independent reference, is non-negative and sums to one inside the bounds, and out-of-range values follow the selected extrapolation mode; degrees 0..3 (0..5 thorough), knot menus incl. ties, df-derived knots from concrete training vectors, centering constraint.",
